@@ -7,12 +7,23 @@ spec/Trace_SubIso.tla  batch wrapper
 Exhaustive small scope: EVERY labelled pattern graph on <= 3 (4) nodes x EVERY labelled graph on <= 4 (5) nodes, and all
 2-colourings for the smaller sizes, each run through find_isomorphisms / largest_common_subgraph with symmetry off and on;
 plus structured families on 5-8 nodes (cycles, stars, complete bipartite, paths, two equal arms, bow-tie, disjoint unions,
-isolated nodes), random sparse renumberings, node and edge colourings.  TLC decides every predicate."""
+isolated nodes), random sparse renumberings, node and edge colourings.  TLC decides every predicate.
+
+Extension (harness/c06_real.py, spec/SubIsoCert.tla): THE MATCHER AS THE LIBRARY USES IT - every block of the shipped charmm /
+amber / gromos force fields up to 25 atoms (with and without hydrogens) as pattern and as graph: against itself, with 1-3 atoms
+removed, with a neighbouring block's atoms attached (both directions), against another block of similar size; node equality =
+element (repair_graph.make_reference, incl. its renumbering by sorted names) and = atom name (_patch_modification); HISTORIES
+with one symmetry cache over the residues of a chain (same-skeleton twins CYS/SER, GLU/GLN, VAL/THR, LEU/ASP presented with
+equal numbering, truncated later residues, junk names, hydrogens).  Beyond ~7 nodes TLC does not enumerate: it VERIFIES a
+certificate (all isomorphisms / automorphisms listed by networkx VF2) and judges the answer against it; cases of at most 6/7
+nodes are judged both ways and the verdicts must agree.  Matcher calls of this part run in killable child processes.
+Widened synthetic scope: three node colours, patterns larger than the graph (largest common subgraph), isolated nodes on both
+sides.  Self-loops are NOT generated (see ev.assumptions)."""
 import itertools
 import multiprocessing as mp
 import random
 
-from . import common, tlc
+from . import c06_real, common, tlc
 
 PID = 'C06'
 
@@ -194,13 +205,92 @@ def coloured_rings(rng):
                     yield Gr, Hr, 'ring%d-%s-period%d%s' % (n, what, period, '+tail' if tail else '')
 
 
+def widened(rng, count):
+    """three node colours; patterns LARGER than the graph (largest common subgraph must shrink the pattern); isolated nodes on
+    both sides.  Half of the draws use a generator that does not depend on the seed."""
+    fixed = random.Random(20261003)
+    shapes = [lambda r: cycle(r.randint(3, 5)), lambda r: path(r.randint(2, 4)), lambda r: star(r.randint(2, 3)),
+              lambda r: (list(range(1, 6)), [(1, 2), (2, 3), (1, 4), (4, 5)]), lambda r: union(path(2), path(2)), lambda r: union(cycle(3), ([1], []))]
+    for i in range(count):
+        r = fixed if i % 2 == 0 else rng
+        kind = ('three-colours', 'pattern-larger', 'isolated-nodes')[i % 3]
+        if kind == 'three-colours':
+            hn, he = list(all_graphs(3))[r.randrange(8)]
+            gn, ge = list(all_graphs(4, base=11))[r.randrange(64)]
+            hc = {n: r.randint(0, 2) for n in hn}
+            gc = {n: r.randint(0, 2) for n in gn}
+            if i % 4 == 0:           # the graph contains a copy of the pattern's colours
+                gc = dict(zip(gn, [hc[n] for n in hn] + [r.randint(0, 2)]))
+            G, H = mk(gn, ge, gc), mk(hn, he, hc)
+            G['force_match'] = H['force_match'] = True
+        elif kind == 'pattern-larger':
+            while True:
+                gn, ge = shapes[r.randrange(len(shapes))](r)
+                extra = shapes[r.randrange(len(shapes))](r)
+                hn, he = union((gn, ge), extra)
+                if len(hn) <= 7:
+                    break
+            if r.random() < 0.5:      # bind the extra part to the copy of the graph
+                he = he + [(1, len(gn) + 1)]
+            cols = r.random() < 0.4
+            G = mk(gn, ge, {n: r.randint(0, 1) for n in gn} if cols else None)
+            H = mk(hn, he, {n: r.randint(0, 1) for n in hn} if cols else None)
+        else:
+            while True:
+                hn, he = union(shapes[r.randrange(len(shapes))](r), *[([1], [])] * r.randint(1, 2))
+                gn, ge = union(shapes[r.randrange(len(shapes))](r), *[([1], [])] * r.randint(1, 3))
+                if len(hn) <= 6 and len(gn) <= 8:
+                    break
+            cols = r.random() < 0.3
+            G = mk(gn, ge, {n: r.randint(0, 2) for n in gn} if cols else None)
+            H = mk(hn, he, {n: r.randint(0, 2) for n in hn} if cols else None)
+        fm = G.get('force_match')
+        mh = dict(zip([n for n, _ in H['nodes']], r.sample(range(1, 60), len(H['nodes']))))
+        mg = dict(zip([n for n, _ in G['nodes']], r.sample(range(100, 190), len(G['nodes']))))
+        G, H = relabel(G, mg), relabel(H, mh)
+        if fm:
+            G['force_match'] = H['force_match'] = True
+        yield G, H, 'widened:' + kind
+
+
 def all_cases(tier, seed):
     rng = random.Random(seed)
     yield from small_scope(tier)
+    yield from widened(random.Random(seed + 1000003), 360 if tier == 'quick' else 9000)
     yield from structured(rng, 150 if tier == 'quick' else 4000)
     for r in coloured_rings(rng):
         if tier != 'quick' or len(r[1]['nodes']) <= 6:
             yield r
+
+
+class _TimeLimit(BaseException):
+    pass
+
+
+def _limited(seconds, fn, *args):
+    """the synthetic graphs are tiny: a call that does not return within `seconds` is inconclusive (counted), not a verdict"""
+    import signal
+    if _TIMEOUTS[0] >= 5:          # this worker met five calls that did not return: do not spend the budget on more of them
+        return [], 'time limit'
+
+    def onalarm(signum, frame):
+        raise _TimeLimit()
+    old = signal.signal(signal.SIGALRM, onalarm)
+    signal.setitimer(signal.ITIMER_REAL, seconds)
+    try:
+        return fn(*args), ''
+    except _TimeLimit:
+        _TIMEOUTS[0] += 1
+        return [], 'time limit'
+    except Exception as exc:      # noqa
+        return [], repr(exc)[:200]
+    finally:
+        signal.setitimer(signal.ITIMER_REAL, 0)
+        signal.signal(signal.SIGALRM, old)
+
+
+SYN_LIMIT = 6
+_TIMEOUTS = [0]
 
 
 def _collect_events(args):
@@ -216,20 +306,12 @@ def _collect_events(args):
         cache = None if ci % 3 == 2 else shared
         for mode in ('iso', 'lcs'):
             for sym in (False, True):
-                try:
-                    Y = run_ismags(G, H, mode, sym, cache)
-                    err = ''
-                except Exception as exc:      # noqa
-                    Y, err = [], repr(exc)[:200]
+                Y, err = _limited(SYN_LIMIT, run_ismags, G, H, mode, sym, cache)
                 out.append({'G': G, 'H': H, 'mode': mode, 'sym': sym, 'Y': Y, 'fam': fam, 'err': err})
         if ci % 2 == 0:
             # query sequences on ONE matcher object: the earlier query must not change the later answer
             for pre, mode, sym in (('iso', 'lcs', ci % 4 == 0), ('sub', 'lcs', True), ('lcs', 'iso', ci % 4 == 0)):
-                try:
-                    Y = run_ismags(G, H, mode, sym, None, pre)
-                    err = ''
-                except Exception as exc:      # noqa
-                    Y, err = [], repr(exc)[:200]
+                Y, err = _limited(SYN_LIMIT, run_ismags, G, H, mode, sym, None, pre)
                 out.append({'G': G, 'H': H, 'mode': mode, 'sym': sym, 'Y': Y, 'fam': fam + '/after-' + pre, 'err': err})
     return out
 
@@ -248,13 +330,17 @@ def _run_events(args):
     import json
     import shutil
     events = _collect_events(args)
-    out = {'d': 0, 'g': 0, 'n': 0, 'fam': {}, 'nontrivial': set(), 'bad': [], 'sample': None}
+    out = {'d': 0, 'g': 0, 'n': 0, 'fam': {}, 'nontrivial': set(), 'bad': [], 'sample': None, 'inconclusive': {}}
+    nlim = sum(1 for e in events if e['err'] == 'time limit')
+    if nlim:
+        out['inconclusive']['synthetic'] = nlim
+        events = [e for e in events if e['err'] != 'time limit']
     for lo in range(0, len(events), 6000):
         shard = events[lo:lo + 6000]
         work = tlc.scratch('c06_')
         try:
             tf = tlc.write_json(work, 'trace.json', [{k: e[k] for k in ('G', 'H', 'mode', 'sym', 'Y')} for e in shard])
-            res = tlc.run('Trace_SubIso', 'SPECIFICATION Spec\n', dump=True, env={'TRACE_FILE': tf}, workdir=work, workers=1, timeout=3400)
+            res = tlc.run('Trace_SubIso', 'SPECIFICATION Spec\n', dump=True, env=dict(c06_real.JOPTS, TRACE_FILE=tf), workdir=work, workers=1, timeout=3400)
             verdicts = {st['tid']: st['verdict'] for st in res.states() if st['verdict'] != 'pending'}
         finally:
             shutil.rmtree(work, ignore_errors=True)
@@ -297,39 +383,117 @@ def judge_events(events, ev, vd):
     return fam
 
 
+FLOORS_REAL = {          # (quick, thorough) minimum number of JUDGED events per feature: the real-pattern part cannot pass vacuously
+    'real:self judged': (100, 1500), 'real:removed judged': (300, 4000), 'real:attached judged': (100, 1500), 'real:inside judged': (100, 1500),
+    'real:other judged': (50, 700), 'real:self symmetric pattern': (40, 700), 'real:self |Aut| >= 12': (10, 150),
+    'real:removed symmetric pattern, symmetry on, isomorphisms exist': (40, 600), 'real:inside symmetric pattern, symmetry on, isomorphisms exist': (20, 300),
+    'real:attached lcs, pattern larger than graph': (80, 1200), 'history:chain queries with a shared cache': (100, 250),
+    'history:twins queries with a shared cache': (60, 60), 'history:twins symmetric pattern': (20, 20),
+    'judged by enumeration AND certificate': (300, 4000),
+}
+FLOORS_SYN = {'widened:three-colours': (300, 8000), 'widened:pattern-larger': (250, 6000), 'widened:isolated-nodes': (250, 6000)}
+
+
 def run(tier, seed, ev, vd):
     ev.rule = ('Exhaustive: all labelled patterns x all labelled graphs up to the bound (plain, 2 node colours, 2 edge colours) x '
-               '{isomorphisms, largest common subgraph} x symmetry {off, on}; structured families with sparse random numbering. '
+               '{isomorphisms, largest common subgraph} x symmetry {off, on}; structured families with sparse random numbering; '
+               'real force-field blocks (self / atoms removed / atoms attached / other block; element and name equality) and shared-cache histories. '
                'Non-trivial = both graphs have >= 2 nodes; distinct by (G, H, mode, symmetry).')
     ev.assumptions = ['TLC evaluates the declarative definitions correctly', 'two thirds of the matchers of a worker share one symmetry cache (history of patterns analysed before)', 'node/edge equality is equality of an integer colour',
-                      'when nothing is common (maximum size 0) the answer of largest_common_subgraph is not constrained']
+                      'when nothing is common (maximum size 0) the answer of largest_common_subgraph is not constrained',
+                      'REAL PATTERNS (modes *-cert): TLC does not enumerate; it verifies a certificate computed by networkx VF2 in the harness. CHECKED by TLC: every '
+                      'mapping of the matcher and every listed mapping is an induced (partial) isomorphism respecting the equality; every listed symmetry is an automorphism of the '
+                      'pattern, the identity is listed, the list is closed under composition (up to %d symmetries); the matcher\'s answer is a sub-list of the certificate; the classes '
+                      'of the representatives under the listed symmetries lie in the list, are disjoint and exhaust it (free action: counting); the maximum common size min(|G|,|H|) is '
+                      'reached by a verified mapping. TRUSTED: completeness of the VF2 lists (an isomorphism / symmetry neither VF2 nor the matcher finds stays unseen). '
+                      'Cases of at most %d / %d nodes are judged by the enumeration as well and both judges must agree.' % (c06_real.CHK_A, c06_real.SMALL[0], c06_real.SMALL[1]),
+                      'largest common subgraph on real patterns is judged only where the maximum is min(|G|,|H|) (atoms removed / attached: true by construction, verified by TLC) or '
+                      'both graphs are small enough to enumerate; "other block" pairs above that size get the isomorphism queries only',
+                      'cases with more than %d isomorphisms or %d symmetries are not generated (counted in skipped_real); matcher runs beyond the time limit are inconclusive (counted), never violations' % (c06_real.CAP_E, c06_real.CAP_A),
+                      'canonicalize_modifications, do_links and map_parser use networkx GraphMatcher (VF2), not ISMAGS: outside this property\'s anchors',
+                      'simple graphs only: SELF-LOOPS are not generated. The statement quantifies over size, labels, connectivity and numbering; molecules never carry self-loops. Observation: '
+                      'ISMAGS ignores self-loops in the search but counts them in the one-edge look-ahead, e.g. pattern {7-8, 7-7} in the path 1-2-3: find_isomorphisms yields {2:7,1:8} and {2:7,3:8}, VF2 nothing.']
+    quick = tier == 'quick'
     nparts = tlc.NCPU * 2
-    with mp.Pool(tlc.NCPU, maxtasksperchild=1) as pool:
-        outs = pool.map(_run_events, [(tier, seed, part, nparts) for part in range(nparts)], chunksize=1)
-    fam, nevents = {}, 0
-    for o in outs:
-        ev.states += o['d']
-        ev.transitions += o['g']
-        ev.traces += o['n']
-        ev.evaluations += o['n']
-        nevents += o['n']
-        ev.nontrivial |= o['nontrivial']
-        for k, n in o['fam'].items():
-            fam[k] = fam.get(k, 0) + n
-        for sc, detail in o['bad']:
-            vd.violation('trace-rejected', sc, detail)
+    cases, hists = c06_real.real_cases(tier, seed)
+    tasks = [('hist', h) for h in hists]
+    tasks += [('case', c) for c in sorted(cases, key=lambda c: -len(c['res']['nodes']) - len(c['ref']['nodes']))]
+    tasks += [('syn', (tier, seed, part, nparts)) for part in range(nparts)]
+    import os
+    only = os.environ.get('C06_ONLY', '')          # debugging / mutation testing: 'real' or 'syn' part alone (never a complete check: exit 2 at the end)
+    if only:
+        tasks = [t for t in tasks if (t[0] == 'syn') == (only == 'syn')]
+    tot = c06_real.run_tasks(tasks, (10, 60) if quick else (20, 180), _run_events, nreal=4 if quick else None)
+    if tot['machinery']:
+        raise tlc.MachineryError('C06: %d certificate / harness problems, first: %s' % (len(tot['machinery']), tot['machinery'][0][:1500]))
+    ev.states += tot['d']
+    ev.transitions += tot['g']
+    ev.traces += tot['n']
+    ev.evaluations += tot['n']
+    ev.nontrivial |= tot['nontrivial']
+    fam = tot['fam']
+    for sc, detail in tot['bad']:
+        vd.violation('trace-rejected', sc, detail)
     ev.exhaustive = True
     ev.extra['events_by_family'] = fam
-    ev.tlc_runs.append({'run': 'TRACE Trace_SubIso', 'events': nevents})
-    smp = next((o['sample'] for o in outs if o['sample']), None)
-    if smp:
-        ev.sample({'kind': 'recorded ISMAGS run judged by TLC', 'event': smp})
+    ev.extra['real_pattern_features'] = tot['feat']
+    ev.extra['inconclusive_real (time limit)'] = tot['inconclusive']
+    ev.extra['skipped_real'] = tot['skipped']
+    ev.extra['real_cases'] = {'cases': len(cases), 'histories': len(hists), 'history_steps': sum(len(h['steps']) for h in hists)}
+    ev.tlc_runs.append({'run': 'TRACE Trace_SubIso', 'events': tot['n']})
+    if tot.get('sample'):
+        ev.sample({'kind': 'recorded ISMAGS run judged by TLC', 'event': tot['sample']})
+    for smp in tot.get('samples_real', [])[:1]:
+        ev.sample({'kind': 'real pattern: recorded ISMAGS run + VF2 certificate (E, A) verified and judged by TLC', 'event': smp})
+    # vacuity: every new family must have been judged often enough, whatever the seed
+    k = 0 if quick else 1
+    if only and not vd.count():
+        raise tlc.MachineryError('C06_ONLY=%s: partial run without violations (%d events judged); not a complete check' % (only, tot['n']))
+    if not vd.count():
+        for key, floor in FLOORS_REAL.items():
+            if tot['feat'].get(key, 0) < floor[k]:
+                raise tlc.MachineryError('C06 vacuous: only %d judged events with feature %r (floor %d); inconclusive: %r' % (tot['feat'].get(key, 0), key, floor[k], tot['inconclusive']))
+        for key, floor in FLOORS_SYN.items():
+            if fam.get(key, 0) < floor[k]:
+                raise tlc.MachineryError('C06 vacuous: only %d events of family %r (floor %d)' % (fam.get(key, 0), key, floor[k]))
+        if tot['inconclusive'].get('synthetic', 0) > 10:
+            raise tlc.MachineryError('C06: %d matcher calls on synthetic graphs of at most 8 nodes did not return within %d s' % (tot['inconclusive']['synthetic'], SYN_LIMIT))
+        ninc = sum(n for k, n in tot['inconclusive'].items() if k != 'synthetic')
+        if ninc > 0.1 * (len(cases) + len(hists)):
+            raise tlc.MachineryError('C06: %d of %d real-pattern tasks hit the time limit' % (ninc, len(cases) + len(hists)))
 
 
 def replay(sc):
-    print('ISMAGS output now:', run_ismags(sc['G'], sc['H'], sc['mode'], sc['sym']))
+    mode = sc['mode'].split('-')[0]
+    G, H = dict(sc['G'], force_match=True), sc['H']
+    if mode == 'first':
+        now = run_ismags(G, H, 'lcs', True)[:1]
+    else:
+        now = run_ismags(G, H, mode, sc['sym'])
+    print('ISMAGS output now:', now)
     print('recorded        :', sc['Y'])
+    e = dict(sc, Y=now, err='')
+    e.setdefault('fam', 'replay')
+    if 'E' in sc:
+        print('verdict on the output now:', c06_real.judge([e])[2][0])
+        return 0
+    print('verdict on the output now:', _judge([e])[2].get(1))
     return 0
+
+
+def _real_selftest_events():
+    """a real pattern with 12 symmetries and 72 isomorphisms (charmm VAL with hydrogens, N and HG11 removed, in VAL), benzene
+    heavy atoms in benzene + 2 atoms, and VAL + 2 foreign atoms against VAL (largest common subgraph, pattern larger)"""
+    L = c06_real.lib()['charmm']
+    val = L['VAL']
+    drop = [n[0] for n in val['nodes'] if n[1] in ('N', 'HG11')]
+    got = []
+    c1 = c06_real._case('selftest', 'VAL -N -HG11', val, c06_real.without(val, drop), 'element')
+    hv = c06_real.heavy(val)
+    c2 = c06_real._case('selftest', 'VAL heavy + 2 atoms of GLY', hv, c06_real.attach(hv, c06_real.heavy(L['GLY']), random.Random(1), 2), 'element')
+    for c in (c1, c2):
+        c06_real._events_of(c, None, got.append)
+    return got
 
 
 def selftest(seed):
@@ -339,11 +503,50 @@ def selftest(seed):
     bad1 = dict(good, Y=good['Y'][:-1])
     bad2 = dict(good, sym=True)                                   # all four given as if symmetry-reduced
     bad3 = dict(good, Y=good['Y'] + [[[1, 7], [3, 8]]])          # not an edge
+    # widened scope: three colours (a colour swapped in the answer's graph), pattern larger than the graph (answer shrunk)
+    G3 = dict(mk([1, 2, 3, 4], [(1, 2), (2, 3), (3, 4)], {1: 0, 2: 1, 3: 2, 4: 0}), force_match=True)
+    H3 = dict(mk([7, 8], [(7, 8)], {7: 1, 8: 2}), force_match=True)
+    good3 = {'G': G3, 'H': H3, 'mode': 'iso', 'sym': True, 'Y': run_ismags(G3, H3, 'iso', True), 'fam': 's3', 'err': ''}
+    assert good3['Y'] == [[[2, 7], [3, 8]]], good3['Y']
+    bad4 = dict(good3, Y=[[[1, 7], [2, 8]]])                      # colours 0-1 instead of 1-2
+    GL = mk([1, 2, 3], [(1, 2), (2, 3)])
+    HL = mk([5, 6, 7, 8, 9], [(5, 6), (6, 7), (7, 8), (8, 9)])
+    goodL = {'G': GL, 'H': HL, 'mode': 'lcs', 'sym': True, 'Y': run_ismags(GL, HL, 'lcs', True), 'fam': 'sL', 'err': ''}
+    assert goodL['Y'] and all(len(y) == 3 for y in goodL['Y']), goodL['Y']
+    bad5 = dict(goodL, Y=[y[:2] for y in goodL['Y']])            # smaller than the maximum
+    bad6 = dict(goodL, Y=goodL['Y'][:1]) if len(goodL['Y']) > 1 else dict(goodL, Y=[])     # a maximum common subgraph not covered
     ev = common.Evidence(PID, 'quick', seed)
     vd = common.Verdicts(PID, ev)
-    judge_events([good, bad1, bad2, bad3], ev, vd)
-    assert len(vd.violations) == 3, vd.violations
+    judge_events([good, bad1, bad2, bad3, good3, bad4, goodL, bad5, bad6], ev, vd)
+    assert len(vd.violations) == 6, vd.violations
     print('selftest C06: tampered outputs rejected:', [d.split(': ')[-1] for k, p, d in vd.violations])
+    # certificate judges on real patterns
+    import copy
+    evs = _real_selftest_events()
+    e = next(x for x in evs if x['mode'] == 'iso-cert' and x['sym'] and x['nA'] == 12 and x['nE'] == 72)
+    e2 = next(x for x in evs if x['mode'] == 'iso-cert' and not x['sym'] and x['nE'] == 72)
+    l = next(x for x in evs if x['mode'].startswith('lcs-') and x['sym'] and len(x['H']['nodes']) > len(x['G']['nodes']))
+    assert len(e['Y']) == 6 and len(l['Y']) >= 2, (len(e['Y']), len(l['Y']))
+    other = next(m for m in e['E'] if m not in e['Y'])
+    swapped = copy.deepcopy(e['Y'])
+    swapped[0][0][0], swapped[0][1][0] = swapped[0][1][0], swapped[0][0][0]
+    tampered = [
+        (e, 'ok'), (e2, 'ok'), (l, 'ok'),
+        (dict(e, Y=e['Y'][:-1]), 'class-without-representative'),
+        (dict(e, Y=e['Y'] + [other]), 'two-representatives-of-one-class'),
+        (dict(e, Y=swapped), 'not-an-induced-isomorphism'),
+        (dict(e2, Y=e2['Y'][:-1]), 'isomorphism-missing'),
+        (dict(e2, Y=e2['Y'] + e2['Y'][:1]), 'isomorphism-yielded-twice'),
+        (dict(l, Y=l['Y'][:-1]), 'maximum-common-subgraph-not-covered'),
+        (dict(l, Y=[y[:-1] for y in l['Y']]), 'not-of-maximum-size'),
+        # a tampered CERTIFICATE is a machinery failure, never a verdict on the matcher
+        (dict(e, E=e['E'][:-1]), 'certificate:'), (dict(e, A=e['A'][:-1]), 'certificate:'), (dict(e, E=e['E'] + [swapped[0]]), 'certificate:'),
+        (dict(e2, E=e2['E'][:-1]), 'certificate:'), (dict(l, E=[]), 'certificate:'),
+    ]
+    _, _, verdicts = c06_real.judge([t for t, _ in tampered])
+    for (t, want), v in zip(tampered, verdicts):
+        assert v.startswith(want), (want, v)
+    print('selftest C06: certificate judges on real patterns (charmm VAL, 12 symmetries, 72 isomorphisms):', verdicts[3:])
     import os
     for k, p, d in vd.violations:
         os.path.exists(p) and os.remove(p)
